@@ -35,6 +35,8 @@ struct Scenario {
     version: u8,
     present: bool,
     big: bool,
+    /// compact with unflushed (content-neutral) modifications pending in the session: a file added and removed again
+    pending: bool,
 }
 
 fn parse_scenario(s: &str) -> Option<Scenario> {
@@ -52,9 +54,10 @@ fn parse_scenario(s: &str) -> Option<Scenario> {
                 "big" => true,
                 _ => return None,
             };
-            Some(Scenario { name: s.to_string(), compact: false, version: ver(v)?, present, big })
+            Some(Scenario { name: s.to_string(), compact: false, version: ver(v)?, present, big, pending: false })
         }
-        ["compact", v] => Some(Scenario { name: s.to_string(), compact: true, version: ver(v)?, present: true, big: false }),
+        ["compact", v] => Some(Scenario { name: s.to_string(), compact: true, version: ver(v)?, present: true, big: false, pending: false }),
+        ["compact", v, "pending"] => Some(Scenario { name: s.to_string(), compact: true, version: ver(v)?, present: true, big: false, pending: true }),
         _ => None,
     }
 }
@@ -318,6 +321,16 @@ fn main() {
                 std::process::exit(EXIT_SETUP_BAD);
             }
         };
+        if sc.pending {
+            // unflushed modifications that leave the content as it is: the session is dirty when compact starts (and when the
+            // handle is dropped after a failed compact)
+            let data = vh_common::gen_content(&mut Rng::for_case(seed, lane("pending"), sc.version as u64), "text", 3000);
+            let name = "Data\\C12p\\pending_only.txt";
+            if let Err(e) = m.add_file_data(&data, name, AddFileOptions::default()).and_then(|_| m.remove_file(name)) {
+                println!("SETUP-BAD pending modifications failed: {}", one_line(&e.to_string()));
+                std::process::exit(EXIT_SETUP_BAD);
+            }
+        }
         marker("begin");
         let r = trap(|| m.compact());
         marker("end");
